@@ -12,7 +12,7 @@ _NEG = {'lt': ('le', True), 'le': ('lt', True), 'eq': ('ne', False), 'ne': ('eq'
 
 def _val(e):
     """strip refs/derefs/named wrappers but keep calls (values, not provenance)."""
-    return peel(e, calls=False)
+    return peel(e, calls=False, tries=False)
 
 
 def norm_rel(e, truth=True):
@@ -41,6 +41,10 @@ def norm_rel(e, truth=True):
         if sw:
             a, b = b, a
     if op in ('eq', 'ne'):
+        # unsigned comparison against zero: X != 0 is 0 < X and X == 0 is X <= 0 (one spelling for both)
+        for x, y in ((a, b), (b, a)):
+            if y[0] == 'int' and y[1] == 0 and len(y) > 2 and isinstance(y[2], str) and y[2].startswith('u'):
+                return ('lt', y, x) if op == 'ne' else ('le', x, y)
         # symmetric relations: constant-like operand to the right, otherwise order by canonical text
         ca, cb = _constlike(a), _constlike(b)
         if ca and not cb:
@@ -252,7 +256,7 @@ def string_values(prog, body, e, depth=0):
     Path::join(base, x) yields the values of x (last component)."""
     if depth > 8:
         return None
-    e = peel(e, calls=False)
+    e = peel(e, calls=False, tries=False)
     k = e[0]
     if k == 'str':
         return {e[1]}
@@ -264,10 +268,9 @@ def string_values(prog, body, e, depth=0):
                 return None
             out |= v
         return out
-    if k == 'field' and e[2] == '0':
-        v = peel(e[1], calls=False)
-        if v[0] == 'variant' and v[2] == 'Some':
-            c = peel(v[1], calls=False)
+    if k == 'try':
+        if True:
+            c = peel(e[1], calls=False)
             if c[0] == 'call' and c[1].endswith('::next'):
                 it = peel(c[2][0])
                 if it[0] == 'aggr' and it[1] == 'array':
@@ -278,7 +281,7 @@ def string_values(prog, body, e, depth=0):
                             return None
                         out |= sv
                     return out
-        return None
+        return string_values(prog, body, e[1], depth + 1)
     if k == 'call':
         name = e[1]
         if re.search(r'Path::join|PathBuf::join', name):
@@ -389,6 +392,94 @@ def crel(r):
 def guards_at(body, bb):
     """canonical strings of the relations that must hold at entry of bb"""
     return sorted(set(crel(r) for r in facts_to_rels(body.facts_at(bb))))
+
+
+def _operand_locals(x, out):
+    if isinstance(x, dict):
+        if 'l' in x and 'p' in x:
+            out.add(x['l'])
+            for pr in x['p']:
+                _operand_locals(pr, out)
+        else:
+            for v in x.values():
+                _operand_locals(v, out)
+    elif isinstance(x, (list, tuple)):
+        for v in x:
+            _operand_locals(v, out)
+
+
+def value_def_blocks(body, operand, bb, depth=6):
+    """blocks in which the value passed as `operand` at `bb` was computed: the definitions dominating bb of the
+    locals in its definition chain"""
+    out = []
+    seen = set()
+    work = set()
+    _operand_locals(operand, work)
+    work = [(l, 0) for l in work]
+    defs = body.defs()
+    while work:
+        l, d = work.pop()
+        if l in seen or d > depth:
+            continue
+        seen.add(l)
+        for df in defs.get(l, []):
+            # a definition that dominates bb was executed on every path to bb (whether or not a later one
+            # overwrote the local on some of them)
+            if not body.dominates(df[1], bb):
+                continue
+            if df[1] not in out:
+                out.append(df[1])
+            nxt = set()
+            if df[0] == 'assign':
+                _operand_locals(df[3], nxt)
+            else:
+                _operand_locals(df[2].args, nxt)
+            work.extend((x, d + 1) for x in nxt)
+    return out
+
+
+def value_alternatives(body, operand, depth=6, _seen=None):
+    """split the value of `operand` along the definitions of the locals it is copied from: a list of
+    (expression, defining block). `let x = if c {A} else {B}; use(x)` yields [(A, bbA), (B, bbB)], so a rule about
+    the value used under a condition sees the same alternatives whether the branch encloses the use or only the
+    definition."""
+    _seen = _seen or set()
+    if operand.get('k') not in ('move', 'copy') or operand['place']['p']:
+        return None
+    l = operand['place']['l']
+    if l in _seen or depth < 0:
+        return None
+    _seen = _seen | {l}
+    ds = body.defs().get(l, [])
+    if not ds or l <= body.raw.get('arg_count', 0) and l != 0:
+        return None
+    out = []
+    for df in ds:
+        if df[0] == 'assign' and df[3]['k'] == 'use':
+            sub = value_alternatives(body, df[3]['op'], depth - 1, _seen)
+            if sub is not None:
+                out.extend(sub)
+                continue
+        e = body.rvalue_expr(df[3]) if df[0] == 'assign' else body.call_expr(df[2])
+        out.append((e, df[1]))
+    return out
+
+
+def guards_for(body, bb, operand):
+    """relations that must hold at bb, plus those that held when the value `operand` was computed (each
+    definition block used dominates bb, so every execution reaching bb passed it under
+    those guards). A memory write between the computation and the use removes the former from guards_at(bb) but
+    not the fact that the value was computed under them."""
+    g = set(guards_at(body, bb))
+    for b in value_def_blocks(body, operand, bb):
+        g.update(guards_at(body, b))
+    return sorted(g)
+
+
+def is_ok_guard(c):
+    """canonical guard string saying only that a fallible call succeeded (`f(..)?` or the Ok arm of a match on
+    it): not a data condition"""
+    return c.endswith(' is Ok') and c[:-6].endswith(')')
 
 
 def int_width(ty):
